@@ -101,13 +101,23 @@ def unit_case(unit):
     return out
 
 
-def embed_chain(rng, coin, scripts, outs_per_tx=20, txs_per_block=3):
-    """Chain whose outputs carry the given scripts (plus a pinned-type coinbase per block)."""
+def embed_chain(rng, coin, scripts, outs_per_tx=20, txs_per_block=3, coinbase_share=0.0):
+    """Chain whose outputs carry the given scripts (plus a pinned-type coinbase per block); a share of the scripts goes into
+    additional outputs of the coinbase transactions (miners put commitments and messages there)."""
     cb = gen.ChainBuilder(rng, coin, genesis=False)
     it = iter(scripts)
     done = False
     while not done:
         txs = []
+        cbo = None
+        if coinbase_share and rng.random() < coinbase_share * 2:
+            cbo = [cb.out(rng.choice(["p2pkh", "p2pk65", "p2sh"]), 50 * 10**8 + rng.randint(0, 10**6))]
+            for _ in range(rng.randint(1, 3)):
+                s = next(it, None)
+                if s is None:
+                    done = True
+                    break
+                cbo.insert(rng.randint(0, len(cbo)), TxOut(rng.choice([0, 0, rng.randint(0, 10**9)]), s))
         for _ in range(txs_per_block):
             outs = []
             for _ in range(outs_per_tx):
@@ -118,7 +128,7 @@ def embed_chain(rng, coin, scripts, outs_per_tx=20, txs_per_block=3):
                 outs.append(TxOut(rng.randint(0, 10**9), s))
             if outs:
                 txs.append(cb.spend_tx(1, outs=outs))
-        cb.add_block(txs=txs)
+        cb.add_block(txs=txs, coinbase_outs=cbo)
     return cb.chain()
 
 
